@@ -14,7 +14,7 @@ RULE = ("Hypothesis-generated 2D plotfiles (rectangular domains with >= 4 cells 
         "order, 'grid_level', 'all') x level limit; each run 4 times (2 poison values for numpy.empty x "
         "{serial, schedule-owning pool with a drawn task order}). out[name].T must be bit-identical to the covering "
         "grid at the limit level, grid_level.T the level map, x / y the cell centres (1e-12 rel.), all four runs "
-        "bit-identical and free of poison. Non-trivial = >= 2 levels or nx != ny or non-square boxes.")
+        "bit-identical and free of poison; one object flattening three times answers like a fresh one and never writes into arrays it returned earlier (edited by the caller in between). Non-trivial = >= 2 levels or nx != ny or non-square boxes.")
 ASSUMPTIONS = ["domains have >= 4 cells per direction at the selected level (format_array_output indexes x_grid[2])"]
 
 
@@ -100,8 +100,16 @@ def check_case(case, ctx):
                     if isinstance(arr, np.ndarray) and arr.dtype.kind == "f" and arr.flags.writeable:
                         arr *= 100.0
                         arr -= 7.0
+                edited = {k: np.array(a, copy=True) for k, a in first.items() if isinstance(a, np.ndarray)}
                 qcall(m.slice, fformat="return")
                 again = qcall(m.slice, fformat="return")
+            # ... and the arrays the caller was given (and edited) are the caller's: later calls must not write into them
+            for key, was in edited.items():
+                now = np.asarray(first[key])
+                if now.shape != was.shape or not refread.same_bits(now.astype("<f8"), was.astype("<f8")):
+                    v.append(f"{key}: the arrays returned by an earlier flattening (edited by the caller since) were overwritten when the same "
+                             f"Mandoline object ran again: a returned result does not belong to the caller")
+                    break
             for name in out_names + (["grid_level"] if do_grid else []) + ["x", "y"]:
                 a, b = np.asarray(ref_out.get(name)), np.asarray(again.get(name))
                 if a.shape != b.shape or not refread.same_bits(a.astype("<f8"), b.astype("<f8")):
